@@ -50,6 +50,16 @@ func (b Bits) String() string {
 		j := i
 		switch bit.K {
 		case 's':
+			// run of the same source bit repeated (sign extension)
+			for j-1 >= 0 && b.B[j-1] == bit {
+				j--
+			}
+			if j < i {
+				// keep the last copy for the descending run that may follow
+				j++
+				parts = append(parts, fmt.Sprintf("%s[%d]×%d", bit.Sym, bit.Idx, i-j+1))
+				break
+			}
 			for j-1 >= 0 && b.B[j-1].K == 's' && b.B[j-1].Sym == bit.Sym && b.B[j-1].Idx == b.B[j].Idx-1 {
 				j--
 			}
@@ -357,4 +367,95 @@ func convertInt(v Val, from, to types.Type) (Val, bool) {
 		}
 	}
 	return r, true
+}
+
+// AddConst returns x + c modulo 2^w in the affine domain (exported for building expected values).
+func AddConst(x Val, c int64, w int) Val { return addConst(x, c, w) }
+
+// ConvertInt converts an abstract integer between Go integer types (exported for building expected values).
+func ConvertInt(v Val, from, to types.Type) (Val, bool) { return convertInt(v, from, to) }
+
+// Canon describes an abstract integer as root + c, where root is an opaque scalar (symbol or uninterpreted term),
+// possibly truncated to its low `width` bits and then sign- or zero-extended. Conversions and ±const are folded
+// in whatever order the code applied them; overflow at the narrow width is ignored (the two orders differ only
+// there), which is stated by the rules that use it.
+type CanonInt struct {
+	Root  string
+	C     int64
+	Ext   string // "", "sext", "zext"
+	Width int    // width of the narrowest truncation applied (0 = none)
+}
+
+func (c CanonInt) String() string {
+	s := c.Root
+	if c.C != 0 {
+		s = fmt.Sprintf("%s%+d", s, c.C)
+	}
+	if c.Width != 0 {
+		s = fmt.Sprintf("%s(%s mod 2^%d)", c.Ext, s, c.Width)
+	}
+	return s
+}
+
+// Canon computes the canonical form of v, ok=false if v is not of that shape.
+func Canon(v Val) (CanonInt, bool) {
+	switch x := v.(type) {
+	case Sym:
+		if def, ok := symDefs[x.Name]; ok {
+			return Canon(def)
+		}
+		return CanonInt{Root: x.Name}, true
+	case Term:
+		return CanonInt{Root: x.String()}, true
+	case Affine:
+		c, ok := Canon(x.X)
+		if !ok {
+			return CanonInt{}, false
+		}
+		c.C += x.C
+		return c, true
+	case Bits:
+		if len(x.B) == 0 || x.B[0].K != 's' {
+			return CanonInt{}, false
+		}
+		name := x.B[0].Sym
+		k := 0
+		for k < len(x.B) && x.B[k].K == 's' && x.B[k].Sym == name && x.B[k].Idx == k {
+			k++
+		}
+		ext := ""
+		if k < len(x.B) {
+			allZero, allSign := true, true
+			for _, b := range x.B[k:] {
+				if b.K != '0' {
+					allZero = false
+				}
+				if !(b.K == 's' && b.Sym == name && b.Idx == k-1) {
+					allSign = false
+				}
+			}
+			switch {
+			case allZero:
+				ext = "zext"
+			case allSign:
+				ext = "sext"
+			default:
+				return CanonInt{}, false
+			}
+		}
+		c, ok := Canon(Sym{name})
+		if !ok {
+			return CanonInt{}, false
+		}
+		if c.Width == 0 || k < c.Width {
+			if k < len(x.B) || c.Width == 0 {
+				c.Width = k
+			}
+		}
+		if ext != "" {
+			c.Ext = ext
+		}
+		return c, true
+	}
+	return CanonInt{}, false
 }
